@@ -17,12 +17,20 @@ LEVEL = ("Theorems over a Lean model of pkg/ha/sync.go (active table, sequence n
          "(real handlers, real JSON encode/decode, real HTTP full sync) and, in the thorough tier, end to end with two "
          "started syncers over loopback TCP through a cut-able proxy; the monitor judges the real code's tables.")
 ASSUME = [
-    "each handler / loop iteration of sync.go is one atomic step (broadcast, deliver, full sync); the HTTP GET of a full "
-    "sync is atomic with its application on the standby (no stream is attached while standbyLoop runs performFullSync)",
+    "each handler / loop iteration of sync.go is one atomic step (broadcast, heartbeat, deliver, full sync); the HTTP GET "
+    "of a full sync is atomic with its application on the standby (no stream is attached while standbyLoop runs "
+    "performFullSync)",
+    "SINGLE WRITER on the active: the caller's store write and PushChange of successive changes do not overlap. "
+    "PushChange itself takes the sequence number (atomic add) and enqueues in two steps, so two concurrent callers could "
+    "enqueue out of sequence order and in an order different from their store writes; handleGetSessions reads the store "
+    "and then the sequence number. Neither is modelled: nothing in the repository calls PushChange concurrently (nothing "
+    "calls it at all outside the tests)",
     "one standby; SessionState is abstracted to (id, value) - the harness derives every field from the pair and checks "
     "all of them on the standby",
     "end-to-end runs use real time: a change is given 15 ms to be broadcast, a quiescent point waits up to 400 ms",
     "PushChange refusing a change because the 1000-slot queue is full is folded into finding D43 (bounded channel drops)",
+    "a session stays in the scope of D43 until a snapshot is taken with nothing about it in flight (excl_D43_resets); "
+    "for a session that is changed continuously converges_partial says nothing in the meantime",
 ]
 
 
